@@ -251,4 +251,168 @@ theorem C08_math_sound (I : Interp) (env : VEnv) :
     subst hp
     simp [evalMathList, ihe m1 v1 hm1 hv1, ihes ms1 vs1 hms1 hvs1]
 
+/-- A construct without MathML counterpart anywhere in an expression makes the export raise. -/
+theorem C08_unsupported_raises :
+    ∀ e, hasUnsupported e = true → ∃ err, convert e = .error err := by
+  refine (renameExpr.mutual_induct
+    (motive_1 := fun e => hasUnsupported e = true → ∃ err, convert e = .error err)
+    (motive_2 := fun es => hasUnsupportedList es = true → ∃ err, convertList es = .error err)
+    (motive_3 := fun rest => hasUnsupportedLinks rest = true → ∀ pm, ∃ err, convertLinks pm rest = .error err)
+    ?name ?const ?unary ?binop ?compare ?ifexp ?call ?attr ?attrDeep ?boolop ?other
+    ?lnil ?lcons ?nil ?cons).1
+  case name => intro id h; simp [hasUnsupported, unsupportedNode] at h
+  case const =>
+    intro c h
+    cases c <;> simp [hasUnsupported, unsupportedNode] at h
+    exact exists_err (by simp [convert, convertConst, isErr])
+  case unary =>
+    intro op e ih h
+    cases hx : convert e with
+    | error err => exact ⟨err, by simp [convert, hx, bind, Except.bind]⟩
+    | ok m1 =>
+      cases op with
+      | invert =>
+        exact exists_err (by simp [convert, hx, bind, Except.bind, lookupE, unaryOpTable_lookup, isErr])
+      | usub | not | uadd =>
+        simp [hasUnsupported, unsupportedNode] at h
+        obtain ⟨err, he⟩ := ih h
+        rw [hx] at he
+        cases he
+  case binop =>
+    intro op l r ihl ihr h
+    cases hl : convert l with
+    | error err => exact ⟨err, by simp [convert, hl, bind, Except.bind]⟩
+    | ok a =>
+      cases hr : convert r with
+      | error err => exact ⟨err, by simp [convert, hl, hr, bind, Except.bind]⟩
+      | ok b =>
+        cases op <;> simp +decide [hasUnsupported, unsupportedNode] at h <;>
+          first
+          | (rcases h with h | h
+             · obtain ⟨err, he⟩ := ihl h; rw [hl] at he; cases he
+             · obtain ⟨err, he⟩ := ihr h; rw [hr] at he; cases he)
+          | exact exists_err (by simp [convert, hl, hr, bind, Except.bind, lookupE, binOpTable_lookup, isErr])
+  case compare =>
+    intro l op r rest ihl ihr ihrest h
+    cases ht : lookupE cmpOpTable op "cmpop" with
+    | error err => exact ⟨err, by simp [convert, ht, bind, Except.bind]⟩
+    | ok t =>
+      cases hl : convert l with
+      | error err => exact ⟨err, by simp [convert, ht, hl, bind, Except.bind]⟩
+      | ok a =>
+        cases hr : convert r with
+        | error err => exact ⟨err, by simp [convert, ht, hl, hr, bind, Except.bind]⟩
+        | ok b =>
+          cases hk : convertLinks b rest with
+          | error err => exact ⟨err, by simp [convert, ht, hl, hr, hk, bind, Except.bind]⟩
+          | ok tl =>
+            exfalso
+            cases op <;> simp +decide [hasUnsupported, unsupportedNode] at h <;>
+              first
+              | (simp [lookupE, cmpOpTable_lookup] at ht; done)
+              | (rcases h with (h | h) | h
+                 · obtain ⟨err, he⟩ := ihl h; rw [hl] at he; cases he
+                 · obtain ⟨err, he⟩ := ihr h; rw [hr] at he; cases he
+                 · obtain ⟨err, he⟩ := ihrest h b; rw [hk] at he; cases he)
+  case ifexp =>
+    intro t b o iht ihb iho h
+    simp only [hasUnsupported, Bool.or_eq_true] at h
+    cases hc : convert t with
+    | error err => exact ⟨err, by simp [convert, hc, bind, Except.bind]⟩
+    | ok c =>
+      cases hx : convert b with
+      | error err => exact ⟨err, by simp [convert, hc, hx, bind, Except.bind]⟩
+      | ok x =>
+        cases hy : convert o with
+        | error err => exact ⟨err, by simp [convert, hc, hx, hy, bind, Except.bind]⟩
+        | ok y =>
+          exfalso
+          rcases h with (h | h) | h
+          · obtain ⟨err, he⟩ := iht h; rw [hc] at he; cases he
+          · obtain ⟨err, he⟩ := ihb h; rw [hx] at he; cases he
+          · obtain ⟨err, he⟩ := iho h; rw [hy] at he; cases he
+  case call =>
+    intro f args ih h
+    simp only [hasUnsupported, Bool.or_eq_true] at h
+    cases hn : calleeName f with
+    | error err => exact ⟨err, by simp [convert, hn, bind, Except.bind]⟩
+    | ok name =>
+      cases hk : callKind name args.length with
+      | error err => exact ⟨err, by simp [convert, hn, hk, bind, Except.bind]⟩
+      | ok r =>
+        obtain ⟨t, k, u⟩ := r
+        obtain ⟨rfl, fn, rfl, _⟩ := callKind_ok hk
+        have hknown := callKind_known hk
+        rcases h with h | h
+        · exfalso
+          cases f with
+          | direct f' =>
+            simp only [calleeName, Except.ok.injEq, Option.some.injEq] at hn
+            subst hn
+            simp [unsupportedNode, hknown] at h
+          | lib p a =>
+            simp only [calleeName, Except.ok.injEq] at hn
+            split at hn
+            · rename_i hp'
+              simp only [Option.some.injEq] at hn
+              subst hn
+              have := libParents_sub hp'
+              simp [unsupportedNode, hknown, this] at h
+            · simp at hn
+          | libDeep => simp [calleeName] at hn
+          | other => simp [calleeName] at hn
+        · obtain ⟨err, he⟩ := ih h
+          exact ⟨err, by simp [convert, hn, hk, he, bind, Except.bind]⟩
+  case attr =>
+    intro p a h
+    simp only [hasUnsupported, unsupportedNode] at h
+    cases hc : convertAttr p a with
+    | error err => exact ⟨err, by simp [convert, hc]⟩
+    | ok m =>
+      exfalso
+      simp only [convertAttr] at hc
+      split at hc
+      · rename_i hp'
+        cases hl : attrConstTable.lookup a with
+        | none => simp [hl] at hc
+        | some m' =>
+          have hm := mem_of_lookup hl
+          have := libParents_sub hp'
+          simp only [attrConstTable, List.mem_cons, List.mem_nil_iff, Prod.mk.injEq, or_false] at hm
+          rcases hm with ⟨rfl, _⟩ | ⟨rfl, _⟩ | ⟨rfl, _⟩ | ⟨rfl, _⟩ <;> simp [this] at h
+      · simp at hc
+  case attrDeep => intro _; exact exists_err (by simp [convert, isErr])
+  case boolop => intro a vals _ _; exact exists_err (by simp [convert, isErr])
+  case other => intro _; exact exists_err (by simp [convert, isErr])
+  case lnil => intro h; simp [hasUnsupportedLinks] at h
+  case lcons =>
+    intro op e rest ihe ihrest h pm
+    cases ht : lookupE cmpOpTable op "cmpop" with
+    | error err => exact ⟨err, by simp [convertLinks, ht, bind, Except.bind]⟩
+    | ok t =>
+      cases he : convert e with
+      | error err => exact ⟨err, by simp [convertLinks, ht, he, bind, Except.bind]⟩
+      | ok b =>
+        cases hk : convertLinks b rest with
+        | error err => exact ⟨err, by simp [convertLinks, ht, he, hk, bind, Except.bind]⟩
+        | ok tl =>
+          exfalso
+          cases op <;> simp +decide [hasUnsupportedLinks] at h <;>
+            first
+            | (simp [lookupE, cmpOpTable_lookup] at ht; done)
+            | (rcases h with h | h
+               · obtain ⟨err, h'⟩ := ihe h; rw [he] at h'; cases h'
+               · obtain ⟨err, h'⟩ := ihrest h b; rw [hk] at h'; cases h')
+  case nil => intro h; simp [hasUnsupportedList] at h
+  case cons =>
+    intro e es ihe ihes h
+    simp only [hasUnsupportedList, Bool.or_eq_true] at h
+    cases hx : convert e with
+    | error err => exact ⟨err, by simp [convertList, hx, bind, Except.bind]⟩
+    | ok m1 =>
+      rcases h with h | h
+      · obtain ⟨err, he⟩ := ihe h; rw [hx] at he; cases he
+      · obtain ⟨err, he⟩ := ihes h
+        exact ⟨err, by simp [convertList, hx, he, bind, Except.bind]⟩
+
 end Mxl.C08
